@@ -66,6 +66,7 @@ class Path(object):
         self.solver = z3.Solver()
         self.solver.set('timeout', RUN.fork_timeout_ms if RUN else 10000)
         self.notes = []
+        self.axioms = []     # quantified facts: used when discharging, not for path feasibility
 
     # -- assumptions -------------------------------------------------------
     def assume(self, c, check=True):
@@ -185,6 +186,11 @@ def explore(fn, on_path=None):
             except RecursionError:
                 raise
             except Exception as e:
+                if isinstance(e, (TypeError, AttributeError)):
+                    from . import proxies
+                    msg = str(e)
+                    if any(("'%s'" % n) in msg for n in proxies.proxy_class_names()):
+                        raise EngineEscape('%s involving a proxy: %s' % (type(e).__name__, msg))
                 out = ('exc', e)
         finally:
             for i in range(len(prefix), len(p.taken)):
@@ -256,36 +262,59 @@ def prove(label, claim, kind='post', clause=None, path=None):
         if not claim:
             s = p.solver
             if s.check() == z3.sat:
-                ob.model = _model_dict(s.model())
+                zm = s.model()
+                ob.model = _model_dict(zm)
+                if RUN.concretise:
+                    try:
+                        ob.replay = RUN.concretise(zm, ob)
+                    except Exception as e:
+                        ob.replay = {'error': 'concretise failed: %r' % (e,)}
     else:
         s = p.solver
         s.push()
-        s.set('timeout', int(RUN.timeout_s * 1000))
+        for ax in p.axioms:
+            s.add(ax)
         s.add(z3.Not(claim))
-        r = s.check()
-        if r == z3.unsat:
-            ob.verdict, ob.backend = 'discharged', 'z3-' + z3.get_version_string()
-        elif r == z3.sat:
-            ob.verdict, ob.backend = 'failed', 'z3-' + z3.get_version_string()
-            ob.model = _model_dict(s.model())
-        else:
-            r2, be = _cli_check('(set-logic ALL)\n' + s.to_smt2(), int(RUN.timeout_s))
-            if r2 == 'unsat':
-                ob.verdict, ob.backend = 'discharged', be
-            elif r2 == 'sat':
-                ob.verdict, ob.backend = 'failed', be
-            else:
-                ob.verdict, ob.backend = 'undecided', None
-                ob.note = 'solver: ' + s.reason_unknown()
+        # first a short attempt with the in-process solver, then the CLI solvers on the same
+        # SMT-LIB text, then the in-process solver with the full budget
+        r = z3.unknown
+        ob.verdict = None
+        cli_sat = None
+        for stage, budget in (('quick', min(2.0, RUN.timeout_s)), ('cli', RUN.timeout_s), ('full', RUN.timeout_s)):
+            if stage == 'cli':
+                r2, be_ = _cli_check('(set-logic ALL)\n' + s.to_smt2(), max(1, int(budget)))
+                if r2 == 'unsat':
+                    ob.verdict, ob.backend = 'discharged', be_
+                    break
+                if r2 == 'sat':
+                    # a CLI `sat` carries no model object: the in-process solver gets the full budget to produce one
+                    cli_sat = be_
+                continue
+            s.set('timeout', int(budget * 1000))
+            r = s.check()
+            if r == z3.unsat:
+                ob.verdict, ob.backend = 'discharged', 'z3-' + z3.get_version_string()
+                break
+            if r == z3.sat:
+                ob.verdict, ob.backend = 'failed', 'z3-' + z3.get_version_string()
+                zm = s.model()
+                ob.model = _model_dict(zm)
+                if RUN.concretise:
+                    try:
+                        ob.replay = RUN.concretise(zm, ob)
+                    except Exception as e:      # replay construction must never mask the verdict
+                        ob.replay = {'error': 'concretise failed: %r' % (e,)}
+                break
+        if ob.verdict is None and cli_sat:
+            ob.verdict, ob.backend = 'failed', cli_sat
+            ob.note = 'refuted by %s; no model object available' % cli_sat
+        elif ob.verdict is None:
+            ob.verdict, ob.backend = 'undecided', None
+            ob.note = 'solver: ' + s.reason_unknown()
         s.pop()
         s.set('timeout', RUN.fork_timeout_ms)
     ob.time = round(time.time() - t0, 4)
     RUN.solver_time += ob.time
-    if ob.verdict == 'failed' and RUN.concretise and ob.model is not None:
-        try:
-            ob.replay = RUN.concretise(ob.model, ob)
-        except Exception as e:      # replay construction must never mask the verdict
-            ob.replay = {'error': 'concretise failed: %r' % (e,)}
     RUN.obligations.append(ob)
     return ob.verdict == 'discharged'
 
@@ -300,6 +329,12 @@ def cover(label, cond=True):
 
 def assume(c):
     CUR.assume(c)
+
+
+def axiom(c):
+    """a quantified fact (definition unfolding, induction hypothesis): available to every
+    obligation of the path, kept out of the feasibility checks of the forks"""
+    CUR.axioms.append(c)
 
 
 def branch(c):
